@@ -31,6 +31,7 @@ var (
 	ErrDecimalPrecisionTooHigh         = fmt.Errorf("precision is set to more than %d digits", aseMaxDecimalDigits)
 	ErrDecimalPrecisionTooLow          = fmt.Errorf("precision is set to less than 0 digits")
 	ErrDecimalScaleTooHigh             = fmt.Errorf("scale is set to more than %d digits", aseMaxDecimalDigits)
+	ErrDecimalScaleTooLow              = fmt.Errorf("scale is set to less than 0 digits")
 	ErrDecimalScaleBiggerThanPrecision = fmt.Errorf("scale is bigger then precision")
 )
 
@@ -86,6 +87,10 @@ func (dec Decimal) sanity() error {
 
 	if dec.Scale > aseMaxDecimalDigits {
 		return ErrDecimalScaleTooHigh
+	}
+
+	if dec.Scale < 0 {
+		return ErrDecimalScaleTooLow
 	}
 
 	if dec.Scale > dec.Precision {
@@ -183,10 +188,18 @@ func (dec *Decimal) SetString(s string) error {
 	s = strings.TrimSpace(s)
 
 	split := strings.Split(s, ".")
+	if len(split) > 2 {
+		return fmt.Errorf("number %s contains more than one decimal point", s)
+	}
 	left := split[0]
 	right := ""
 	if len(split) > 1 {
-		right = split[1]
+		// Trailing zeros of the fraction do not change the value
+		right = strings.TrimRight(split[1], "0")
+	}
+
+	if len(right) > dec.Scale {
+		return fmt.Errorf("number %s has more than %d fractional digits", s, dec.Scale)
 	}
 
 	// Set underlying big.Int structure to the whole number
@@ -200,6 +213,10 @@ func (dec *Decimal) SetString(s string) error {
 		mul := big.NewInt(10)
 		mul.Exp(mul, big.NewInt(int64(dec.Scale-len(right))), nil)
 		i.Mul(i, mul)
+	}
+
+	if i.Sign() != 0 && len(big.NewInt(0).Abs(i).String()) > dec.Precision {
+		return fmt.Errorf("number %s has more than %d digits", s, dec.Precision)
 	}
 
 	dec.i = i
